@@ -408,6 +408,7 @@ TABLE.str_join = _str_join
 T.declare_ghost("env_kind", z3.IntSort())      # 0: the last environment call returned, 1: it raised
 T.declare_ghost("env_val", Val)                # the returned value / the exception object
 T.declare_ghost("env_calls", z3.IntSort())     # number of environment calls so far
+T.declare_ghost("env_outcomes", Val)           # per environment call: (0, returned value) or (1, exception)
 
 import jsonrpclib.jsonrpc as _J
 
@@ -429,6 +430,7 @@ def _env_call(ex, st, f, argv, kw, text, base=Exception):
     s_ok.ghost["env_kind"] = z3.IntVal(0)
     s_ok.ghost["env_val"] = ret
     s_ok.ghost["bind_err"] = z3.BoolVal(False)
+    TABLE.ghost_append(s_ok, "env_outcomes", V.mk_tuple([V.I(0), ret]))
     s_ex = st.copy()
     s_ex.sig.append("env:%s:raise" % text)
     e = ex.env_exc(s_ex, base)
@@ -437,6 +439,7 @@ def _env_call(ex, st, f, argv, kw, text, base=Exception):
     s_ex.ghost["env_kind"] = z3.IntVal(1)
     s_ex.ghost["env_val"] = e
     s_ex.ghost["bind_err"] = be
+    TABLE.ghost_append(s_ex, "env_outcomes", V.mk_tuple([V.I(1), e]))
     return [(s_ok, ("val", ret)), (s_ex, ("raise", e))]
 
 
@@ -1042,3 +1045,14 @@ def _ev_wait(ex, st, args, kwargs, text):
     # another thread may have set it while we waited
     st.write(Val.ref(e), "_flag", V.VBool(b))
     return [(st, ("val", V.VBool(b)))]
+
+
+@TABLE.register("logging.getLogger")
+def _get_logger(ex, st, args, kwargs, text):
+    """logging.getLogger(name): a Logger object"""
+    import logging
+    st = st.copy()
+    lg = V.fresh("logger")
+    st.assume(z3.And(V.is_obj(lg), Val.ref(lg) >= 0, C.subclass(C.cls_of(Val.ref(lg)), logging.Logger)))
+    st.settype(lg, logging.Logger)
+    return [(st, ("val", lg))]
